@@ -191,7 +191,7 @@ pub fn plan_distributed(ctx: &ExecutionContext, sql: &str) -> Result<Distributed
         None => None,
     };
 
-    let final_order = rewrite_order_by(&ol.order_by, &output_names, &mut rw)?;
+    let final_order = rewrite_order_by(&ol.order_by, &output_names, &select.projection, &mut rw)?;
     let partial_sql = rw.partial_sql(select, &group_exprs);
     let mut final_sql = rw.final_sql(final_projection, final_having);
     push_order_limit(&mut final_sql, &final_order, &ol);
@@ -262,10 +262,24 @@ fn order_suffix(o: &sa::OrderByExpr) -> String {
 fn rewrite_order_by(
     order_by: &[sa::OrderByExpr],
     output_names: &[String],
+    projection: &[sa::SelectItem],
     rw: &mut Rewriter,
 ) -> Result<Vec<String>> {
     let mut out = Vec::with_capacity(order_by.len());
     for o in order_by {
+        // A sort key that IS a select item (`SELECT a.k, .. ORDER BY a.k`) sorts
+        // by that item's output column. Sending it through the rewriter named
+        // the partial column (`qe_g0`), which the merge query's projection has
+        // already renamed away, and the merge stage failed to find it.
+        let as_output = projection.iter().position(|item| match item {
+            sa::SelectItem::UnnamedExpr(e) => *e == o.expr,
+            sa::SelectItem::ExprWithAlias { expr, .. } => *expr == o.expr,
+            _ => false,
+        });
+        if let Some(i) = as_output.filter(|i| *i < output_names.len()) {
+            out.push(format!("\"{}\"{}", output_names[i], order_suffix(o)));
+            continue;
+        }
         let rendered = match &o.expr {
             sa::Expr::Value(sa::ValueWithSpan {
                 value: sa::Value::Number(n, _),
